@@ -450,3 +450,16 @@ func decodeV2(entry []byte) (Batch, error) {
 	bt.LenOK = len(p.B) == 0
 	return bt, nil
 }
+
+// RecordEndsV2 returns, for an uncompressed v2 batch of these records, the byte offset inside the
+// encoded batch at which each record ends (the batch header is 61 bytes).
+func RecordEndsV2(recs []Rec, o V2Opts) []int {
+	ends := make([]int, len(recs))
+	pos := 61
+	for i := range recs {
+		one := BatchV2(recs[i:i+1], V2Opts{Codec: None, BaseOffset: o.BaseOffset, FirstTsMs: o.FirstTsMs})
+		pos += len(one) - 61
+		ends[i] = pos
+	}
+	return ends
+}
